@@ -34,7 +34,7 @@ CHECKS = {
             "DESIGN.md 3/C09"),
     "C03": ("values", "exploration",
             "exhaustive enumeration of reflectively discovered (class, settable attribute) pairs + Hypothesis multi-assignment orders; round-trip oracle (getter after assign, getter after re-open, live-vs-file snapshot)",
-            "The (class, attribute) pair dimension is finite and enumerated completely on every run (566 pairs: every object/group/data class, data/object/group types, workspace header); values and assignment orders are sampled. Each accepted assignment must be what a fresh reader of the closed file sees, and all other attributes must agree between memory and file.",
+            "The (class, attribute) pair dimension is finite and enumerated completely on every run (642 pairs: every object/group/data class incl. the view setters parts and coordinate_reference_system, data/object/group types, workspace header); values and assignment orders are sampled. Each accepted assignment must be what a fresh reader of the closed file sees, and all other attributes must agree between memory and file.",
             "Value domains come from a table keyed by attribute name (vp/engines/values.py::make_value); pairs without a domain and pairs whose setter rejects the value are listed in the evidence, not claimed.",
             "DESIGN.md 3/C03"),
     "C08": ("values", "exploration",
@@ -103,7 +103,7 @@ CHECKS = {
             "NaN is excluded (documented); look-alike strings ('inf', '1', uuid-shaped text, '*.geoh5', '') and forms the documentation leaves open are counted classes, not judged.",
             "DESIGN.md 3/C14"),
     "C15": ("uijson", "exploration",
-            "exhaustive decision table over the optional/enabled/group/dependency switches (2880 rows x 3 values x 2 surfaces) + generated (form, value) pairs with verdict known by construction + differential statelessness over validation histories (used object vs fresh object, rejected call leaves state unchanged)",
+            "exhaustive decision table over the optional/enabled/group/dependency switches (3960 rows x 3 values x 2 surfaces) + generated (form, value) pairs with verdict known by construction + differential statelessness over validation histories (used object vs fresh object, rejected call leaves state unchanged)",
             "The switch table is enumerated completely on every run against a decision table written from the ui.json documentation and requires_value's docstring; generated pairs check accept-invalid and reject-valid in both directions; histories of 2-8 calls on the same InputValidation / validator / EnforcerPool / Parameter / FormParameter / UIJson / InputFile must give the verdict a fresh object gives and a rejected call must leave data, ui_json, validations and parameter values unchanged.",
             "Combinations the documentation leaves open are marked unspecified, skipped and counted (288 of 16704 verdicts).",
             "DESIGN.md 3/C15"),
